@@ -337,8 +337,8 @@ func checkSameKey(r *Report, m *Module, rule, key string, mu *ssa.MapUpdate, a a
 		ok = arg == strip(mu.Key)
 	} else {
 		if e, isE := arg.(*ssa.Extract); isE {
-			if c, isC := e.Tuple.(*ssa.Call); isC && len(c.Call.Args) > 0 {
-				ok = strip(c.Call.Args[0]) == strip(mu.Key)
+			if c, isC := e.Tuple.(*ssa.Call); isC && len(argsOf(c)) > 0 {
+				ok = strip(argsOf(c)[0]) == strip(mu.Key)
 			}
 		}
 		if s, isS := arg.(*ssa.Slice); isS {
